@@ -108,7 +108,7 @@ def drive(binary, args, cwd=None, timeout=3600):
 
 
 # ---------------------------------------------------------------- TLC
-def repo_tests_trace(work, binary, out, only=None, runbase=8000000, timeout=900):
+def repo_tests_trace(work, binary, out, only=None, runbase=8000000, timeout=900, scripts=None):
     """the repository's OWN scenario tests (testcases/*_test.go of /repo's current working tree) run against the real
     engine with every game wrapped by harness/vrec; the recorded calls are projected by `vdrive holdem-convert`.
     A test that FAILS is the repository's business, not a verdict: only what the engine did is looked at."""
@@ -145,7 +145,7 @@ def repo_tests_trace(work, binary, out, only=None, runbase=8000000, timeout=900)
             log("[repotests] not built: " + p.stdout[-400:].replace("\n", " | "))
             return dict(runs=0, steps=0, lines=0, tests=[], built=False, test_files=n)
         raise Inconclusive("the repository's scenario tests recorded nothing:\n" + p.stdout[-1500:])
-    st = drive(binary, ["holdem-convert", "-in", raw, "-o", out, "-runbase", runbase])
+    st = drive(binary, ["holdem-convert", "-in", raw, "-o", out, "-runbase", runbase] + (["-scripts", scripts] if scripts else []))
     st["built"] = True
     st["test_files"] = n
     st["go_test_ok"] = p.returncode == 0
